@@ -237,14 +237,14 @@ func c09RunOnce(schemaText string, data []byte, mode string, choices, cuts []int
 		return hx.Result{}, nil, err
 	}
 	switch mode {
-	case "cuts":
-		return hx.Run(schema, &hx.CutReader{Data: data, Cuts: cuts}, hx.Opts{MaxReads: 3000}), nil, nil
-	case "onebyte":
+	case "cuts", "cuts+empty":
+		return hx.Run(schema, &hx.CutReader{Data: data, Cuts: cuts, EmptyBefore: mode == "cuts+empty"}, hx.Opts{MaxReads: 5000}), nil, nil
+	case "onebyte", "onebyte+empty":
 		cs := make([]int, 0, len(data))
 		for i := 1; i < len(data); i++ {
 			cs = append(cs, i)
 		}
-		return hx.Run(schema, &hx.CutReader{Data: data, Cuts: cs}, hx.Opts{MaxReads: 3000}), nil, nil
+		return hx.Run(schema, &hx.CutReader{Data: data, Cuts: cs, EmptyBefore: mode == "onebyte+empty"}, hx.Opts{MaxReads: 3000}), nil, nil
 	}
 	x := &core.Exec{Prefix: choices}
 	return hx.Run(schema, &hx.ChoiceReader{Data: data, X: x}, hx.Opts{MaxReads: 3000}), x, nil
@@ -267,7 +267,7 @@ func init() {
 	core.Register(&core.Prop{
 		ID:    "C09",
 		Level: "exploration",
-		Rule:  "for every (schema, input) of the delivery corpus: all delivery schedules with at most k deviations from 'one chunk then EOF' (a deviation = a short read of any size, data returned together with io.EOF, or an empty read), byte-at-a-time delivery, ALL 2^(n-1) cut sets of tiny inputs, and single/double cuts at every offset of 4-9 KB inputs that cross the 4096-byte bufio/replacing-reader and 128-byte EDI buffers; a case is distinct by (input, schedule); its outcome class is (input, transcript)",
+		Rule:  "for every (schema, input) of the delivery corpus: all delivery schedules with at most k deviations from 'one chunk then EOF' (a deviation = a short read of any size, data returned together with io.EOF, or an empty read), byte-at-a-time delivery (also with an empty read before every byte), ALL 2^(n-1) cut sets of tiny inputs, and single/double cuts at every offset of 4-9 KB inputs that cross the 4096-byte bufio/replacing-reader and 128-byte EDI buffers; a case is distinct by (input, schedule); its outcome class is (input, transcript)",
 		Assumptions: []string{
 			"the io.Reader obeys the io.Reader contract (never more than len(p) bytes, at most 3 consecutive empty reads)",
 			"schedules beyond the deviation bound are covered only by the byte-at-a-time and all-cut-sets families",
@@ -335,6 +335,14 @@ func init() {
 						c.Count("schedules_onebyte", 1)
 						if sig, detail := c09Diff(it.Name, base, got); sig != "" {
 							report(c09Case{Item: it.Name, Schema: it.Schema, InputB: data, Mode: "onebyte"}, sig, detail)
+						}
+						// one byte at a time with an empty read before every byte: never two empty reads in a
+						// row, but hundreds in total
+						got, _, _ = c09RunOnce(it.Schema, data, "onebyte+empty", nil, nil)
+						c.Eval(name + "|onebyte+empty")
+						c.Count("schedules_onebyte", 1)
+						if sig, detail := c09Diff(it.Name, base, got); sig != "" {
+							report(c09Case{Item: it.Name, Schema: it.Schema, InputB: data, Mode: "onebyte+empty"}, sig, detail)
 						}
 					}
 				}
@@ -448,6 +456,26 @@ func init() {
 						report(cs, sig, trunc2(detail, 3000))
 					}
 					return !c.TimeUp()
+				}
+				// pieces of 1 / 7 / 13 bytes with an empty read before every piece (hundreds of empty reads, never
+				// two in a row)
+				for _, size := range []int{1, 7, 13} {
+					widx++
+					if !c.Mine(widx) {
+						continue
+					}
+					var cuts []int
+					for p := size; p < len(data); p += size {
+						cuts = append(cuts, p)
+					}
+					cs := c09Case{Item: it.Name, Schema: it.Schema, InputB: data, Mode: "cuts+empty", Cuts: cuts}
+					c.Begin(func() interface{} { return cs })
+					got := hx.Run(schema, &hx.CutReader{Data: data, Cuts: cuts, EmptyBefore: true}, hx.Opts{MaxReads: 5000})
+					c.Eval(fmt.Sprintf("long+empty:%s|%d", it.Name, size))
+					c.Count("schedules_long_inputs", 1)
+					if sig, detail := c09Diff(it.Name, base, got); sig != "" {
+						report(cs, sig, trunc2(detail, 3000))
+					}
 				}
 				stride := 1
 				if c.Quick() {
